@@ -139,4 +139,14 @@ CHECKS = {
         trusted_base=TB,
         assumptions=[],
     ),
+    "C09": dict(
+        packs=["c09"], level="other",
+        explanation="R09.1 every SubImage area is confined (single confining constructor, who-may-call new_unchecked, unconditional forwards that compose for nesting), R09.2 ImageRaw::new accepts exactly bytes_per_row*height with padded rows, data_width table, new_const, "
+                    "R09.3 pixel()/draw_sub_image guards by dominance and the index/skip forms, R09.4 colour count of ContiguousPixels by a potential function: remaining_x + remaining_y*width drops by exactly 1 on every pulling path of next(), stops only at 0, and new() must initialise it to width*height.",
+        claim="Decides length acceptance, guard placement, index/skip forms and the exact colour count of the stream (for an underlying iterator that does not run dry); colour order inside a row is inherited from C11's iterator rules.",
+        note="Necessary conditions plus one invariant (potential function) check by polynomial identity on each path; trusted: path enumeration of small acyclic functions.",
+        technique="dominating-guard extraction, origin-tree comparison and a potential-function (ranking) check by polynomial identities over MIR paths",
+        trusted_base=TB,
+        assumptions=["the raw data iterator yields an item for every in-range index (C11)"],
+    ),
 }
